@@ -22,6 +22,7 @@ Decided (structural necessary conditions; networkx's search itself is trusted):
  R8 request keys  : requests_from_json reads every plainly copied field (source, destination, ...) from the key of the same name.
  R9 end trims     : source-first / destination-last entries are trimmed independently, node and flag together.
  R10 request defaults: mutable parameter defaults are copied per request (shared with C16).
+ R11 route order    : route objects ordered by their numeric index.
 """
 import ast
 
@@ -445,6 +446,28 @@ def r10_request_defaults(ctx):
     _r(proxy(ctx, 'R10'))
 
 
+
+def r11_route_order(ctx):
+    """R11: the include constraints reach the router in the order the request gives them: the route objects of a request are ordered
+    by their NUMERIC index (sorted on the index itself - not on its text, where 10 comes before 2) and the node / strictness lists
+    are built from that one ordered list"""
+    from ..pattern import mexpr
+    repo = ctx.repo
+    f = repo.func('gnpy.tools.json_io', 'requests_from_json')
+    srt = [c for c in calls_to(f, {'sorted'}) if 'route-object-include-exclude' in ast.unparse(c)]
+    ok = len(srt) == 1
+    det = ''
+    if ok:
+        k = kwarg(srt[0], 'key')
+        det = ast.unparse(k) if k is not None else 'no key'
+        ok = isinstance(k, ast.Lambda) and len(k.args.args) == 1 and \
+            mexpr(f"{k.args.args[0].arg}['index']", k.body) is not None and kwarg(srt[0], 'reverse') is None
+    ctx.check('R11.route-order', site(f), ok, key(f, 'index-order'),
+              'the route objects of a request are not put in the order of their numeric index: with ten or more include nodes the '
+              'constraint list would be shuffled (index 10 before index 2) and a satisfiable ordered route be refused or dropped', det)
+    ctx.need('R11.route-order', 1)
+
+
 from ..memo import rule_for as _memo_rule
 
 RULES_MEMO = ('Rm.memo', _memo_rule('C11', 'a route computed for another request or topology would be returned'))
@@ -455,4 +478,4 @@ from ..presence import rule_for as _presence_rule
 RULES_PRESENCE = ('Rp.presence', _presence_rule('C11', 'a legal zero would be read as missing'))
 
 RULES = [('R1.metric', r1_metric), ('R2.outcomes', r2_outcomes), ('R3.reasons', r3_reasons), ('R4.route-lists', r4_route_lists),
-         ('R5.helpers', r5_helpers), RULES_MEMO, RULES_PRESENCE, ('R6.group-constraints', r6_group_constraints), ('R7.same-request', r7_same_request), ('Ra.alias-mutation', ra_alias), ('Rn.arg-roles', rn_arg_roles), ('R8.request-keys', r8_endpoints_loaded), ('R9.end-trims', r9_end_trims), ('R10.defaults', r10_request_defaults)]
+         ('R5.helpers', r5_helpers), RULES_MEMO, RULES_PRESENCE, ('R6.group-constraints', r6_group_constraints), ('R7.same-request', r7_same_request), ('Ra.alias-mutation', ra_alias), ('Rn.arg-roles', rn_arg_roles), ('R8.request-keys', r8_endpoints_loaded), ('R9.end-trims', r9_end_trims), ('R10.defaults', r10_request_defaults), ('R11.route-order', r11_route_order)]
